@@ -136,7 +136,7 @@ def check_concrete(c, obj, args):
 
 def base_name(obname):
     """obligation name without the path label: post:WF-x[exit2] -> post:WF-x"""
-    return obname.split('[')[0].split('@')[0]
+    return obname.split('[')[0].split('@')[0]   # path label and line number are not part of the identity
 
 
 def verify_function(c, rep, tier='quick', timeout_ms=8000, bound=3):
@@ -150,6 +150,9 @@ def verify_function(c, rep, tier='quick', timeout_ms=8000, bound=3):
         out.append(rep.add(Ob('extract:' + qn, 'P', 'undecided', 'extract', 0, str(ex), function=qn)))
         return out
     rep.under_contract(qn, c.relpath, fn.l0, fn.l1)
+    if not getattr(c, 'symbolic', True):
+        # run-time contract only (function outside the encoder subset by design): bounded stand-in, never P
+        return runtime_contract(c, rep, tier, all_proved=False)
     try:
         ex = E.Exec(c, fn)
         obs = ex.run()
